@@ -1,7 +1,8 @@
 (* C17 — Served data equals ingested state; nothing outlives its deletion.
-   Statements only; proofs in MetricsProofs.v.  Model: Metrics (registry, scrape, the Delete functions) over Storage.step and Eval.eval_group. *)
+   Statements only; proofs in MetricsProofs.v.  Model: Metrics (registry, Delete functions, evaluator cache, pruning scrape) over Storage.step and Eval.eval_group.
+   Proofs: MetricsProofs.v, MetricsFullProofs.v, MetricsCacheProofs.v. *)
 From Coq Require Import ZArith List Bool String.
-From Burrow Require Import Int64 F32 Eval AMap Ring Storage StorageProofs Metrics MetricsProofs MetricsFullProofs.
+From Burrow Require Import Int64 F32 Eval AMap Ring Storage StorageProofs Metrics MetricsProofs MetricsFullProofs MetricsCacheProofs.
 From BurrowGen Require Import JsonTags.
 Import ListNotations.
 Open Scope Z_scope.
@@ -38,78 +39,95 @@ Proof. exact delete_topic_metrics_v0_refuted. Qed.
 Print Assumptions C17_delete_topic_metrics_v0_refuted.
 
 (* ==== metrics_equal_state ====
-   C17_metrics_equal_state is the property at its strongest reading: for EVERY history of ingest, deletions through their paths,
-   status requests and EARLIER SCRAPES, the registry after a scrape is exactly what the live state calls for, key by key (each
-   offset / lag / status attributed to its own group, topic and partition id through [expected] / [written]).
-   Side conditions (all about the configuration / the shape of requests, none about the history's length or order):
-     1 <= intervals <= 2^24   (float32: beyond 2^24 slots (n-1)/n rounds to 1.0, EvalCompleteProofs)
-     the configured cluster names are distinct
-     op_ok: a SetBrokerOffset names a partition below its partition count and offsets are int64 (StorageProofs.wf_req: otherwise
-            the storage worker panics), and StorageSetDeleteTopic reaches storage only together with DeleteTopicMetrics
-            (OTopicDeleted; the regenerated table C17_delete_sites_table shows the tree has no other sender;
-            C17_bare_delete_topic_refuted shows the condition is needed).
-   No series can be called for at one scrape and not at the next without a deletion path having run in between
-   (MetricsFullProofs.step_live: groups, partition lists and broker partitions only disappear through DeleteTopic / DeleteGroup /
-   the expiry purge, whose metric deletions remove exactly those series; a full window stays full).
-   C17_scrape_reports_state / C17_scrape_never_invents / C17_metrics_equal_state_first_scrape need no side condition at all. *)
-Theorem C17_scrape_reports_state :
-  forall sc now sy sy' k,
-    scrape sc now sy = Some sy' -> expected sc now (s_st sy') k <> None ->
-    reg_get (s_reg sy') k = expected sc now (s_st sy') k.
-Proof. exact scrape_reports_state. Qed.
-Print Assumptions C17_scrape_reports_state.
+   What /metrics shows is read through the evaluator's result cache (expire-cache = L, on the real clock rt), and since cc5e0f6
+   the scrape removes the partition series of a group that the status it has just read does not contain.  System model:
+   Metrics.csys = storage + registry + cache; Metrics.cscrape; histories Metrics.crun over (real time, clock, operation).
+   FULL STATEMENT, for every history (ingest, deletions through their paths, status requests, earlier scrapes, warm or cold):
+     C17_metrics_equal_served_state: after a scrape, topic offsets are exactly the present state's; a group that is not in
+       storage has no series; a group that is has exactly the series that the status served for it calls for - the newest cache
+       entry of the group, which is the evaluation of the storage state at the fetch it came from (entry_sound), fetched during
+       this scrape or no longer ago than the cache lifetime (ce_valid: rt <= created + L).
+     C17_metrics_equal_state_cold: with no valid entry in the cache (expire-cache = 0, or nothing evaluated within the last L) the
+       registry equals [expected] of the present state, key by key.
+   Side conditions: 1 <= intervals, distinct cluster names, cop_ok (StorageProofs.wf_req on ingest requests; StorageSetDeleteTopic
+   only together with DeleteTopicMetrics: C17_delete_sites_table; C17_bare_delete_topic_refuted shows it is needed).
+   The development without cache and without pruning (MetricsProofs.scrape, MetricsFullProofs.metrics_equal_state) describes the
+   handler before cc5e0f6 read with a cold cache; it is kept as a library of lemmas, no longer as a claim about the tree. *)
+Theorem C17_metrics_equal_served_state :
+  forall sc cls L h cs rt now cs',
+    (1 <= cf_intervals (sc_st sc))%nat -> NoDup cls -> Forall (fun x => cop_ok (snd x)) h ->
+    crun sc L (init_csys cls) h = Some cs -> cscrape sc L rt now cs = Some cs' ->
+    (forall c t p, reg_get (s_reg (cs_sys cs')) (KTopic c t p) = expected sc now (s_st (cs_sys cs')) (KTopic c t p)) /\
+    (forall c g k, names_group c g k = true ->
+       (find_group (s_st (cs_sys cs')) c g = None -> reg_get (s_reg (cs_sys cs')) k = None) /\
+       (find_group (s_st (cs_sys cs')) c g <> None ->
+          exists e, cache_get (cs_cache cs') c g = Some e /\ entry_sound sc c g e /\
+            ((cache_get (cs_cache cs) c g = Some e /\ ce_valid L rt e = true) \/
+             (ce_created e = rt /\ Metrics.group_expired (sc_st sc) now (s_st (cs_sys cs')) c g = false /\
+              exists gs0, ce_res e = Some gs0 /\ group_view sc now (s_st (cs_sys cs')) c g = Some gs0)) /\
+            reg_get (s_reg (cs_sys cs')) k = match ce_res e with Some gs0 => written c g gs0 k | None => None end)).
+Proof. exact metrics_equal_served_state. Qed.
+Print Assumptions C17_metrics_equal_served_state.
 
-Theorem C17_scrape_never_invents :
-  forall sc now sy sy' k,
-    scrape sc now sy = Some sy' ->
-    reg_get (s_reg sy') k = expected sc now (s_st sy') k \/
-    (expected sc now (s_st sy') k = None /\ reg_get (s_reg sy') k = reg_get (s_reg sy) k).
-Proof. exact scrape_spec. Qed.
-Print Assumptions C17_scrape_never_invents.
+Theorem C17_metrics_equal_state_cold :
+  forall sc cls L h cs rt now cs' k,
+    (1 <= cf_intervals (sc_st sc))%nat -> NoDup cls -> Forall (fun x => cop_ok (snd x)) h ->
+    crun sc L (init_csys cls) h = Some cs -> cold L rt (cs_cache cs) -> cscrape sc L rt now cs = Some cs' ->
+    reg_get (s_reg (cs_sys cs')) k = expected sc now (s_st (cs_sys cs')) k.
+Proof. exact metrics_equal_state_cold. Qed.
+Print Assumptions C17_metrics_equal_state_cold.
 
-Theorem C17_metrics_equal_state_first_scrape :
-  forall sc clusters h sy now sy' k,
-    forallb (fun no => not_scrape (snd no)) h = true ->
-    sys_run sc (init_sys clusters) h = Some sy -> scrape sc now sy = Some sy' ->
-    reg_get (s_reg sy') k = expected sc now (s_st sy') k.
-Proof. exact metrics_equal_state_first_scrape. Qed.
-Print Assumptions C17_metrics_equal_state_first_scrape.
+(* expire-cache = 0 (the cache is off, c3210ba) is always cold *)
+Theorem C17_cold_when_cache_off : forall rt ca, cold 0 rt ca.
+Proof. exact cold_zero. Qed.
+Print Assumptions C17_cold_when_cache_off.
 
-Theorem C17_metrics_equal_state :
-  forall sc clusters h sy now sy' k,
-    (1 <= cf_intervals (sc_st sc))%nat -> Z.of_nat (cf_intervals (sc_st sc)) <= 2 ^ 24 -> NoDup clusters ->
-    Forall (fun no => op_ok (snd no)) h ->
-    sys_run sc (init_sys clusters) h = Some sy -> scrape sc now sy = Some sy' ->
-    reg_get (s_reg sy') k = expected sc now (s_st sy') k.
-Proof. exact metrics_equal_state. Qed.
-Print Assumptions C17_metrics_equal_state.
-
-(* what "called for" means structurally: the group exists / the partition is in the group's list for that topic / its window
-   is full / the broker partition has an offset *)
-Theorem C17_expected_iff_live :
-  forall sc clusters h sy now sy' k,
-    (1 <= cf_intervals (sc_st sc))%nat -> Z.of_nat (cf_intervals (sc_st sc)) <= 2 ^ 24 -> NoDup clusters ->
-    Forall (fun no => op_ok (snd no)) h ->
-    sys_run sc (init_sys clusters) h = Some sy -> scrape sc now sy = Some sy' ->
-    (expected sc now (s_st sy') k <> None <-> live (s_st sy') k).
-Proof. exact expected_iff_live. Qed.
-Print Assumptions C17_expected_iff_live.
-
-(* a StorageSetDeleteTopic without DeleteTopicMetrics (excluded by op_ok; no function of the tree sends one) leaves series behind *)
+(* a StorageSetDeleteTopic without DeleteTopicMetrics (excluded by cop_ok; no function of the tree sends one) leaves series behind *)
 Theorem C17_bare_delete_topic_refuted :
-  exists sc cls h sy now sy' k,
-    sys_run sc (init_sys cls) h = Some sy /\ scrape sc now sy = Some sy' /\
-    reg_get (s_reg sy') k <> expected sc now (s_st sy') k.
-Proof. exact bare_delete_topic_refuted. Qed.
+  exists sc cls L h cs rt now cs' k,
+    crun sc L (init_csys cls) h = Some cs /\ cold L rt (cs_cache cs) /\ cscrape sc L rt now cs = Some cs' /\
+    reg_get (s_reg (cs_sys cs')) k <> expected sc now (s_st (cs_sys cs')) k.
+Proof. exact bare_delete_topic_refuted_c. Qed.
 Print Assumptions C17_bare_delete_topic_refuted.
 
-Example C17_metrics_equal_state_nonvacuous :
-  Forall (fun no => op_ok (snd no)) ex_full_hist /\
-  exists sy sy',
-    sys_run (wsc 1 604800) (init_sys [1]) ex_full_hist = Some sy /\ scrape (wsc 1 604800) 1007 sy = Some sy' /\
-    reg_get (s_reg sy') (KTopic 1 1 1) = Some 200 /\ reg_get (s_reg sy') (KGroup GStatus 1 1) = None.
-Proof. exact metrics_equal_state_nonvacuous. Qed.
-Print Assumptions C17_metrics_equal_state_nonvacuous.
+(* before cc5e0f6 (cscrape_v1: cache, no pruning): after a topic deletion the series re-created from the cached status were
+   never removed - still there at a cold scrape four cache lifetimes later *)
+Theorem C17_stale_status_repopulates_v1_refuted :
+  exists sc cls L h cs rt now cs' k,
+    Forall (fun x => cop_ok (snd x)) h /\ crun_gen false sc L (init_csys cls) h = Some cs /\
+    cold L rt (cs_cache cs) /\ cscrape_v1 sc L rt now cs = Some cs' /\
+    names_topic 1 1 k = true /\ reg_get (s_reg (cs_sys cs')) k <> expected sc now (s_st (cs_sys cs')) k.
+Proof. exact stale_status_repopulates_v1_refuted. Qed.
+Print Assumptions C17_stale_status_repopulates_v1_refuted.
+
+(* non-vacuity: the same history on the tree as it is: the stale status is shown while its cache entry is valid (bounded by
+   expire-cache), the topic's own offsets are gone at once, and the cold scrape removes the rest *)
+Example C17_stale_status_bounded :
+  exists cs cs',
+    Forall (fun x => cop_ok (snd x)) ex_stale_hist /\
+    crun (wsc 1 604800) 1000 (init_csys [1]) ex_stale_hist = Some cs /\
+    reg_get (s_reg (cs_sys cs)) (KPart PLag 1 1 1 0) = Some 10 /\
+    reg_get (s_reg (cs_sys cs)) (KTopic 1 1 0) = None /\
+    cscrape (wsc 1 604800) 1000 5000 1005 cs = Some cs' /\
+    reg_get (s_reg (cs_sys cs')) (KPart PLag 1 1 1 0) = None /\
+    reg_get (s_reg (cs_sys cs')) (KPart PLag 1 1 2 0) = Some 50.
+Proof. exact stale_status_bounded. Qed.
+Print Assumptions C17_stale_status_bounded.
+
+(* ==== no panic: every well-formed history runs to the end (storage, evaluator and the /metrics handler never panic), so the
+   `= Some` hypotheses above are always met ==== *)
+Theorem C17_crun_total :
+  forall sc cls L h,
+    (1 <= cf_intervals (sc_st sc))%nat -> NoDup cls -> Forall (fun x => cop_ok (snd x)) h ->
+    exists cs, crun sc L (init_csys cls) h = Some cs /\ cInv sc cls cs.
+Proof. exact crun_total. Qed.
+Print Assumptions C17_crun_total.
+
+Theorem C17_cscrape_total :
+  forall sc cls L rt now cs,
+    (1 <= cf_intervals (sc_st sc))%nat -> NoDup cls -> cInv sc cls cs -> exists cs', cscrape sc L rt now cs = Some cs'.
+Proof. exact cscrape_total. Qed.
+Print Assumptions C17_cscrape_total.
 
 (* ==== each offset attributed to its OWN partition ====
    FULL STATEMENT: forall sc now st c t p, expected sc now st (KTopic c t p) = broker_offset st c t p.
@@ -125,58 +143,73 @@ Theorem C17_topic_offset_position_refuted :
 Proof. exact topic_offset_position_refuted. Qed.
 Print Assumptions C17_topic_offset_position_refuted.
 
-(* ==== no_series_outlives: one theorem per deletion path; now' is the time of the next scrape ==== *)
-Theorem C17_no_series_outlives_tombstone_or_reaper :
-  forall sc now now' sy sy1 sy2 c g k,
-    sys_step sc now sy (OGroupGone c g) = Some sy1 -> scrape sc now' sy1 = Some sy2 ->
-    names_group c g k = true -> reg_get (s_reg sy2) k = None /\ find_group (s_st sy2) c g = None.
-Proof. exact no_series_outlives_group_gone. Qed.
-Print Assumptions C17_no_series_outlives_tombstone_or_reaper.
+(* ==== no_series_outlives ====
+   What each deletion path does to storage (the group / the group's topic / the topic is gone), and what /metrics shows then:
+   - a group that is gone (tombstone, reaper, API delete, expiry purge): no series after ANY scrape, warm or cold;
+   - a topic the group no longer consumes (topic deletion, API delete of the group's topic): its partition series are shown only
+     while the status served was evaluated on a state that still had it, i.e. for at most the cache lifetime (C05 bounds that);
+     gone at every cold scrape;  the topic's own offset series are never cached: gone at once (C17_metrics_equal_served_state);
+   - expiry: a cold scrape purges every expired group and leaves none of its series; so does any fetch of the group. *)
+Theorem C17_whole_group_deletion_removes_group :
+  forall st c g st' rep, delete_group st c g 0 = Done st' rep -> find_group st' c g = None.
+Proof. exact delete_group_all. Qed.
+Print Assumptions C17_whole_group_deletion_removes_group.
 
-Theorem C17_no_series_outlives_api_delete_group :
-  forall sc now now' sy sy1 sy2 c g k,
-    get (s_st sy) c <> None ->
-    sys_step sc now sy (OStorage (DeleteGroup c g 0)) = Some sy1 -> scrape sc now' sy1 = Some sy2 ->
-    names_group c g k = true -> reg_get (s_reg sy2) k = None /\ find_group (s_st sy2) c g = None.
-Proof. exact no_series_outlives_api_group. Qed.
-Print Assumptions C17_no_series_outlives_api_delete_group.
+Theorem C17_group_topic_deletion_removes_topic :
+  forall st c g t st' rep, delete_group st c g t = Done st' rep -> t <> 0 -> group_has_topic st' c g t = false.
+Proof. exact delete_group_topic. Qed.
+Print Assumptions C17_group_topic_deletion_removes_topic.
 
-Theorem C17_no_series_outlives_api_delete_group_topic :
-  forall sc now now' sy sy1 sy2 c g t k,
-    get (s_st sy) c <> None -> t <> 0 ->
-    sys_step sc now sy (OStorage (DeleteGroup c g t)) = Some sy1 -> scrape sc now' sy1 = Some sy2 ->
-    names_group_topic c g t k = true -> reg_get (s_reg sy2) k = None.
-Proof. exact no_series_outlives_api_group_topic. Qed.
-Print Assumptions C17_no_series_outlives_api_delete_group_topic.
+Theorem C17_topic_deletion_removes_topic :
+  forall st c t st' rep, delete_topic st c t = Done st' rep ->
+    (forall g, group_has_topic st' c g t = false) /\ Metrics.topic_offsets st' c t = None.
+Proof. exact delete_topic_effect. Qed.
+Print Assumptions C17_topic_deletion_removes_topic.
 
-Theorem C17_no_series_outlives_topic_deletion :
-  forall sc now now' sy sy1 sy2 c t k,
-    sys_step sc now sy (OTopicDeleted c t) = Some sy1 -> scrape sc now' sy1 = Some sy2 ->
-    names_topic c t k = true -> reg_get (s_reg sy2) k = None.
-Proof. exact no_series_outlives_topic. Qed.
-Print Assumptions C17_no_series_outlives_topic_deletion.
+Theorem C17_no_series_of_absent_group :
+  forall sc cls L h cs rt now cs' c g k,
+    (1 <= cf_intervals (sc_st sc))%nat -> NoDup cls -> Forall (fun x => cop_ok (snd x)) h ->
+    crun sc L (init_csys cls) h = Some cs -> cscrape sc L rt now cs = Some cs' ->
+    find_group (s_st (cs_sys cs)) c g = None -> names_group c g k = true ->
+    reg_get (s_reg (cs_sys cs')) k = None /\ find_group (s_st (cs_sys cs')) c g = None.
+Proof. exact no_series_of_absent_group. Qed.
+Print Assumptions C17_no_series_of_absent_group.
 
-Theorem C17_no_series_outlives_expiry :
-  forall sc now sy sy' c g k,
-    group_expired (sc_st sc) now (s_st sy) c g = true -> scrape sc now sy = Some sy' ->
-    names_group c g k = true -> reg_get (s_reg sy') k = None /\ find_group (s_st sy') c g = None.
-Proof. exact no_series_outlives_expiry. Qed.
-Print Assumptions C17_no_series_outlives_expiry.
+Theorem C17_no_series_of_deleted_topic :
+  forall sc cls L h cs rt now cs' c g t f p,
+    (1 <= cf_intervals (sc_st sc))%nat -> NoDup cls -> Forall (fun x => cop_ok (snd x)) h ->
+    crun sc L (init_csys cls) h = Some cs -> cscrape sc L rt now cs = Some cs' ->
+    (forall e, cache_get (cs_cache cs') c g = Some e -> group_has_topic (ce_st e) c g t = false) ->
+    reg_get (s_reg (cs_sys cs')) (KPart f c g t p) = None.
+Proof. exact no_series_of_deleted_topic. Qed.
+Print Assumptions C17_no_series_of_deleted_topic.
+
+Theorem C17_no_series_of_deleted_topic_cold :
+  forall sc cls L h cs rt now cs' c g t k,
+    (1 <= cf_intervals (sc_st sc))%nat -> NoDup cls -> Forall (fun x => cop_ok (snd x)) h ->
+    crun sc L (init_csys cls) h = Some cs -> cold L rt (cs_cache cs) -> cscrape sc L rt now cs = Some cs' ->
+    group_has_topic (s_st (cs_sys cs)) c g t = false -> names_group_topic c g t k = true ->
+    reg_get (s_reg (cs_sys cs')) k = None.
+Proof. exact no_series_of_deleted_topic_cold. Qed.
+Print Assumptions C17_no_series_of_deleted_topic_cold.
+
+Theorem C17_no_series_outlives_expiry_cold :
+  forall sc cls L h cs rt now cs' c g k,
+    (1 <= cf_intervals (sc_st sc))%nat -> NoDup cls -> Forall (fun x => cop_ok (snd x)) h ->
+    crun sc L (init_csys cls) h = Some cs -> cold L rt (cs_cache cs) -> cscrape sc L rt now cs = Some cs' ->
+    Metrics.group_expired (sc_st sc) now (s_st (cs_sys cs)) c g = true -> names_group c g k = true ->
+    reg_get (s_reg (cs_sys cs')) k = None /\ find_group (s_st (cs_sys cs')) c g = None.
+Proof. exact no_series_outlives_expiry_cold. Qed.
+Print Assumptions C17_no_series_outlives_expiry_cold.
 
 Theorem C17_no_series_outlives_expiry_on_fetch :
   forall sc now sy sy1 rep c g k,
-    group_expired (sc_st sc) now (s_st sy) c g = true ->
+    Metrics.group_expired (sc_st sc) now (s_st sy) c g = true ->
     sys_storage sc now sy (FetchConsumer c g) = Some (sy1, rep) ->
     names_group c g k = true ->
     rep = RNil /\ reg_get (s_reg sy1) k = None /\ find_group (s_st sy1) c g = None.
 Proof. exact no_series_outlives_expiry_fetch. Qed.
 Print Assumptions C17_no_series_outlives_expiry_on_fetch.
-
-Theorem C17_scrape_purges_expired :
-  forall sc now sy sy' c g grp,
-    scrape sc now sy = Some sy' -> find_group (s_st sy') c g = Some grp -> expired (sc_st sc) now (g_last grp) = false.
-Proof. exact scrape_purges_expired. Qed.
-Print Assumptions C17_scrape_purges_expired.
 
 (* FULL STATEMENT of "once expired, no endpoint reports it": false for the list endpoints until the lazy purge has run
    (finding C17:expired-group-listed, not repaired); what holds is the three theorems above. *)
@@ -187,19 +220,16 @@ Theorem C17_expired_group_listed_refuted :
 Proof. exact expired_group_listed_refuted. Qed.
 Print Assumptions C17_expired_group_listed_refuted.
 
-(* ==== json_equals_state: the status / lag endpoints serve the evaluation of the stored group ==== *)
-Theorem C17_json_status_equals_state :
-  forall sc now sy c g show_all sy' v,
-    json_status sc now sy c g show_all = Some (sy', Some v) ->
-    sy' = sy /\ exists gs, group_view sc now (s_st sy) c g = Some gs /\ v = (if show_all then gs else filter_view gs).
-Proof. exact json_status_equals_state. Qed.
-Print Assumptions C17_json_status_equals_state.
-
-Theorem C17_json_status_notfound :
-  forall sc now sy c g show_all sy',
-    json_status sc now sy c g show_all = Some (sy', None) -> find_group (s_st sy') c g = None.
-Proof. exact json_status_notfound. Qed.
-Print Assumptions C17_json_status_notfound.
+(* ==== json_equals_state: the status / lag endpoints answer the newest cache entry of the group: the evaluation (filtered for
+   the default view) of the storage state of the fetch it came from, done now or no longer ago than the cache lifetime ==== *)
+Theorem C17_json_status_served :
+  forall sc L rt now cs c g show_all cs' v,
+    cache_sound sc (cs_cache cs) ->
+    cjson_status sc L rt now cs c g show_all = Some (cs', v) ->
+    exists e, cache_get (cs_cache cs') c g = Some e /\ entry_sound sc c g e /\ fresh_enough L rt e /\
+              v = match ce_res e with Some gs => Some (if show_all then gs else filter_view gs) | None => None end.
+Proof. exact json_status_served. Qed.
+Print Assumptions C17_json_status_served.
 
 (* ==== the behaviour before the repairs 8eaa8f9 and ff5734c (scrape_v0 / nil_end_panics), kept as documentation ==== *)
 Theorem C17_expiry_outlives_v0_refuted :
@@ -217,23 +247,6 @@ Theorem C17_scrape_nil_end_v0_refuted :
              reg_get (set_group 4 1 [] gs) (KPart POffset 4 1 1 1) = None.
 Proof. exact scrape_nil_end_v0_refuted. Qed.
 Print Assumptions C17_scrape_nil_end_v0_refuted.
-
-(* ==== non-vacuity ==== *)
-Example C17_nonvacuous :
-  exists sy1 sy2 sy3,
-    w_ingest (wsc 1 604800) [1]
-      [(1000, SetBrokerOffset 1 1 0 2 100); (1000, SetBrokerOffset 1 2 0 1 50);
-       (1000, SetConsumerOffset 1 1 1 0 90 1 999000); (1000, SetConsumerOffset 1 2 2 0 50 2 999500);
-       (1000, SetConsumerOwner 1 1 1 0 7 8)] = Some sy1 /\
-    scrape (wsc 1 604800) 1001 sy1 = Some sy2 /\
-    reg_get (s_reg sy2) (KPart POffset 1 1 1 0) = Some 90 /\
-    reg_get (s_reg sy2) (KPart PLag 1 1 1 0) = Some 10 /\
-    reg_get (s_reg sy2) (KTopic 1 2 0) = Some 50 /\
-    sys_step (wsc 1 604800) 1002 sy2 (OTopicDeleted 1 1) = Some sy3 /\
-    reg_get (s_reg sy3) (KPart POffset 1 1 1 0) = None /\
-    reg_get (s_reg sy3) (KGroup GStatus 1 1) <> None.
-Proof. exact scrape_nonvacuous. Qed.
-Print Assumptions C17_nonvacuous.
 
 (* ==== regenerated tables (translator/jsontags re-reads /repo on every run; gen/JsonTags.v) ==== *)
 (* once and for all: what the two checkers guarantee *)
